@@ -123,6 +123,17 @@ def replay_chunk(cases: List[Dict[str, Any]]):
                 own_orch = make_recording_orchestrator()     # a Pipeline keeps ONE orchestrator across its runs
                 a = run_nodes(nodes, *mk(), pipeline=p, orchestrator=own_orch)
                 files_a = set((tmp / "d").rglob("*.jsonl")) if (tmp / "d").exists() else set()
+                # what the first run handed back belongs to the caller: it post-processes the returned context in place
+                # (pops from a published list, rescales it); the next run of the Pipeline must not see any of that
+                if a.get("result") is not None and ci % 2 == 0:
+                    try:
+                        for k_, v_ in list(a["result"].context.to_dict().items()):
+                            if isinstance(v_, list) and v_:
+                                v_.pop()
+                                v_.append(-12345.0)
+                                v_.reverse()
+                    except Exception:
+                        pass
                 b = run_nodes(nodes, *mk(), pipeline=p, orchestrator=own_orch)
                 files_b = set((tmp / "d").rglob("*.jsonl")) - files_a if (tmp / "d").exists() else set()
                 ra = [r for f in sorted(files_a) for r in read_records(f)]
@@ -168,7 +179,7 @@ def hostile_payloads() -> List[tuple]:
     import datetime as _dt
     import decimal as _dec
     for vals in ([_dt.date(2026, 1, 1), _dt.date(2026, 1, 2)], [_dt.datetime(2026, 1, 1, 12, 0)], [b"\x00\xff", b"a"], [(1, 2), (3, 4)],
-                 [1j, 2.0], [frozenset({1})], [_dec.Decimal("1.5")]):
+                 [1j, 2.0], [frozenset({1})], [_dec.Decimal("1.5")], [1.0, float("inf"), float("nan")], [float("-inf")]):
         nodes_list.append([{"processor": "FloatMultiplyOperation",
                             "derive": {"parameter_sweep": {"parameters": {"factor": "2.0 if d else 3.0"}, "variables": {"d": {"values": vals}},
                                                            "collection": "FloatDataCollection"}}}])
